@@ -69,10 +69,25 @@ fn event_interpolant_right_end() -> Option<String> {
     None
 }
 
+/// C03: fixed-step RK4 never passes xend and never evaluates the right-hand side beyond it
+fn rk4_overshoot() -> Option<String> {
+    for (x0, xend, h) in [(0.0, 1.0, 0.3), (0.0, -1.0, -0.3), (0.0, 1.0, 0.7), (2.0, 3.0, 0.4)] {
+        let f = Lin::new();
+        let s = solve_ivp(&f, x0, xend, &[1.0], Options::builder().method(Method::RK4).first_step(h).build()).unwrap();
+        let last = *s.t.last().unwrap();
+        let (lo, hi) = if x0 < xend { (x0, xend) } else { (xend, x0) };
+        if last > hi + 1e-12 || last < lo - 1e-12 || f.tmax.get() > hi + 1e-12 || f.tmin.get() < lo - 1e-12 {
+            return Some(format!("RK4 [{}, {}] h={}: last t={} status={:?} ode evaluated on [{}, {}]", x0, xend, h, last, s.status, f.tmin.get(), f.tmax.get()));
+        }
+    }
+    None
+}
+
 fn main() {
     let which = std::env::args().nth(1).unwrap_or_default();
     let r = match which.as_str() {
         "span_hinit_probe" => span_hinit_probe(),
+        "rk4_overshoot" => rk4_overshoot(),
         "event_interpolant_right_end" => event_interpolant_right_end(),
         _ => { println!("unknown scenario {}", which); std::process::exit(2); }
     };
